@@ -372,16 +372,69 @@ pub(crate) fn parse_defcircuit<'a>(
 }
 
 /// Parse the contents of a `DELAY` instruction.
+///
+/// `DELAY` lists qubits, then optional frame names, then a duration expression. Without frame
+/// names the grammar does not say where the qubits end: an integer, an identifier or a `%variable`
+/// is a valid qubit as well as a valid start of an expression (`DELAY 0 1 2*pi`, `DELAY 0 pi`,
+/// `DELAY 0 theta[1]`, `DELAY 0 %t`). The qubit list is therefore read greedily, and when that
+/// does not leave a duration that runs to the end of the instruction, the longest shorter qubit
+/// list that does is used instead. A function name followed by `(` always starts the duration.
 pub(crate) fn parse_delay<'a>(input: ParserInput<'a>) -> InternalParserResult<'a, Instruction> {
-    let (input, mut qubits) = many0(parse_qubit)(input)?;
-    let (input, frame_names) = many0(token!(String(v)))(input)?;
+    // The input position in front of every qubit, and after the last one.
+    let mut positions = vec![input];
+    let mut qubits = Vec::new();
+    let mut rest = input;
+    while let Ok((remainder, qubit)) = parse_qubit(rest) {
+        // `sin(`, `cos(`, ... start the duration; they are not a qubit followed by a group.
+        if let (Qubit::Variable(name), Some(crate::parser::Token::LParenthesis)) =
+            (&qubit, crate::parser::first_token(remainder))
+        {
+            if matches!(
+                name.to_lowercase().as_str(),
+                "cis" | "cos" | "exp" | "sin" | "sqrt"
+            ) {
+                break;
+            }
+        }
+        qubits.push(qubit);
+        positions.push(remainder);
+        rest = remainder;
+    }
+    let (after_frame_names, frame_names) = many0(token!(String(v)))(rest)?;
+
+    if frame_names.is_empty() {
+        let ends_instruction = |input: ParserInput<'a>| {
+            matches!(
+                crate::parser::first_token(input),
+                None | Some(crate::parser::Token::NewLine)
+                    | Some(crate::parser::Token::Semicolon)
+                    | Some(crate::parser::Token::Comment(_))
+            )
+        };
+        for qubit_count in (0..=qubits.len()).rev() {
+            if let Ok((remainder, duration)) = parse_expression(positions[qubit_count]) {
+                if ends_instruction(remainder) {
+                    qubits.truncate(qubit_count);
+                    return Ok((
+                        remainder,
+                        Instruction::Delay(Delay {
+                            duration,
+                            frame_names,
+                            qubits,
+                        }),
+                    ));
+                }
+            }
+        }
+    }
+
     // If there is no intervening frame name and the delay is an integer, it will have been parsed
     // as a qubit. We check for and correct that condition here.
-    let (input, duration) = parse_expression(input).or_else(|e| {
+    let (input, duration) = parse_expression(after_frame_names).or_else(|e| {
         if let Some(Qubit::Fixed(index)) = qubits.last() {
             let duration = *index as f64;
             qubits.pop();
-            Ok((input, Expression::Number(real!(duration))))
+            Ok((after_frame_names, Expression::Number(real!(duration))))
         } else {
             Err(e)
         }
